@@ -268,6 +268,25 @@ def run(ctx):
     fl.decls = [e, t, sv]; fl.root_type = t
     for d in fl.decls: d.file = fl
     if not ctx.replay_in: schemas.append(aim); nS += 1
+    # aimed: degenerate catalogs - no objects, no enums, neither, only an (empty) service, only a string union, empty table - and
+    # union fields with siblings sorting between `u` and `u_type`
+    def mini(name, decls, root=None):
+        sc = G.Schema(); f = G.File(name); sc.files = [f]; f.decls = decls; f.root_type = root
+        for d in decls: d.file = f
+        return sc
+    e1 = G.Enum('Eonly', ['Nsx'], 'short'); e1.members = [['Ka', -3], ['Kb', None], ['Kc', 9]]
+    s1 = G.Struct('Sonly', []); s1.fields = [{'name': 'b', 'type': ('scalar', 'ubyte')}, {'name': 'a', 'type': ('scalar', 'double')}]
+    u1 = G.Union('Uonly', []); u1.members = [['Str', ('string',), None, True]]
+    sv1 = G.Service('SvcEmpty', ['Nsy'])
+    t0 = G.Table('Tempty', [])
+    tx = G.Table('Tx', []); ux = G.Union('Ux', []); ux.members = [['Tx', ('table', tx), None, False]]
+    tx.fields = [{'name': n, 'type': ty, 'attrs': []} for n, ty in (
+        ('u2', ('scalar', 'int')), ('u', ('union', ux)), ('uA', ('scalar', 'ubyte')), ('u_id', ('scalar', 'long')), ('test', ('vec', ('union', ux))),
+        ('test4', ('scalar', 'int')), ('test_typ', ('scalar', 'short')), ('u_typf', ('string',)), ('u_', ('scalar', 'int')), ('testZ', ('scalar', 'bool')))]
+    minis = [mini('mempty', []), mini('menums', [e1]), mini('mstructs', [s1]), mini('munion', [u1]), mini('mservice', [sv1]), mini('mtable0', [t0], t0),
+             mini('menumsvc', [e1, sv1]), mini('munionsib', [ux, tx], tx)]
+    if not ctx.replay_in:
+        schemas += minis; nS += len(minis)
     # layouts / ids from the extracted model
     mlines, meta = [], []
     for s in schemas:
